@@ -24,6 +24,10 @@ Definition MOD : Z := -1.    (* the auction module account (auctionV1 / auctions
 Definition COLL : Z := -2.   (* collector module account *)
 Definition EXT : Z := -3.    (* external initiator (V2X) *)
 Definition TM : Z := -4.     (* tokenmint module account (bids are moved there and burnt) *)
+Definition NF : Z := -6.     (* NOT a bank account: the collector's NetFeesCollected record of (app, collector asset), kept
+                                in the ledger under the denom of that asset (V1S: the lot denom, V1D: the bid denom).
+                                Only the generation-1 closes book it here (V1D close, V1S emergency-shutdown close);
+                                the generation-2 closes' net-fee bookkeeping is not projected by C11. *)
 Definition AUC1 : Z := -5.   (* V2S: the generation-1 auction module account (auctiontypes.ModuleName): the start
                                 (liquidationsV2 CheckStatsForSurplusAndDebt -> collector.GetAmountFromCollector)
                                 puts the lot there and the close takes it from there (fix 67f334a).  For V1S / V1D
@@ -39,7 +43,9 @@ Record auction := mkA {
   bids : list (Z * Z);       (* accepted bids (bidder, amount), most recent first (BiddingIds) *)
   bid_end : Z;               (* V1 BidEndTime (seconds); unused by V2 *)
   end_ : Z;                  (* EndTime *)
-  status : Z;                (* 0 AuctionStartNoBids, 1 AuctionGoingOn, 2 ended (record deleted) *)
+  status : Z;                (* 0 AuctionStartNoBids, 1 AuctionGoingOn, 2 ended (record deleted; the history record says
+                                AuctionEnded), 3 = generation 1 only: wound up by the emergency shutdown (statusEsm close:
+                                record deleted, the history record says AuctionEnded too; no winner) *)
   factor : Z;                (* bid factor, a Dec (scaled by 10^18) *)
   dur : Z;                   (* AuctionDurationSeconds *)
   bid_dur : Z                (* V1 BidDurationSeconds *)
@@ -59,6 +65,14 @@ Definition set_times (a : auction) (buy' be e : Z) : auction :=
 Definition set_closed (a : auction) : auction :=
   mkA (var a) (bid_denom a) (lot_denom a) (sell a) (buy a) (bidder a) (bids a) (bid_end a) (end_ a) 2
       (factor a) (dur a) (bid_dur a).
+
+(* the emergency-shutdown close keeps Bidder / Bid / BiddingIds on the (history) record *)
+Definition set_esm_closed (a : auction) : auction :=
+  mkA (var a) (bid_denom a) (lot_denom a) (sell a) (buy a) (bidder a) (bids a) (bid_end a) (end_ a) 3
+      (factor a) (dur a) (bid_dur a).
+
+(* the auction record is gone (GetSurplusAuction / GetDebtAuction / GetAuction fail) *)
+Definition ended (a : auction) : bool := (status a =? 2) || (status a =? 3).
 
 (* BidFactor.MulInt(x).Ceil().TruncateInt(); None = MulInt overflows and panics *)
 Definition change (f x : Z) : option Z :=
@@ -140,7 +154,7 @@ Definition settle (a : auction) (l : ledger) (who amt now pay sell' buy' : Z) : 
   Ok (set_bid a who amt now sell' buy', l2))).
 
 Definition bid (a : auction) (l : ledger) (who denom amt now xd xa : Z) : outcome state :=
-  if status a =? 2 then Err 1 else                              (* auction record not found *)
+  if ended a then Err 1 else                                    (* auction record not found *)
   match bid_check a denom amt xd xa with
   | Ok (pay, sell', buy') => settle a l who amt now pay sell' buy'
   | Err c => Err c
@@ -162,7 +176,9 @@ Definition close (a : auction) (l : ledger) (w : Z) (tm_ok : bool) : outcome sta
       if negb tm_ok then Err 12 else
       let l1 := if sell a >? 0 then mint_to l w (lot_denom a) (sell a) else l in
       lift (send l1 MOD COLL (bid_denom a) (buy a)) 13 (fun l2 =>
-      Ok (set_closed a, l2))
+      (* collector.SetNetFeeCollectedData(AssetInId, ExpectedUserToken.Amount): fails on a negative amount
+         only, and then the send above has panicked already *)
+      Ok (set_closed a, mint_to l2 NF (bid_denom a) (buy a)))
   | V2S =>                                                      (* the lot waits in the generation-1 auction module account *)
       lift (send l AUC1 MOD (lot_denom a) (sell a)) 14 (fun l1 =>
       lift (send l1 MOD w (lot_denom a) (sell a)) 10 (fun l2 =>
@@ -192,7 +208,7 @@ Definition restart (a : auction) (now : Z) : auction :=
 (* the block hook at time [now] (auction.BeginBlocker -> Surplus/DebtAuctionClose;
    auctionsV2.BeginBlocker -> AuctionIterator), for this auction, ESM not triggered *)
 Definition tick (a : auction) (l : ledger) (now : Z) (tm_ok : bool) : outcome state :=
-  if status a =? 2 then Ok (a, l) else
+  if ended a then Ok (a, l) else
   let due := if is_v1 (var a) then (now >? end_ a) || (now >? bid_end a) else now >? end_ a in
   if negb due then Ok (a, l) else
   match bidder a with
@@ -200,14 +216,58 @@ Definition tick (a : auction) (l : ledger) (now : Z) (tm_ok : bool) : outcome st
   | Some w => close a l w tm_ok
   end.
 
+(* ------------------------------------------------------------------------------------------ *)
+(* The block hook at time [now] while the app's emergency shutdown is on (esm.GetESMStatus(app).Status):
+   generation 1: auction.BeginBlocker -> SurplusActivator / DebtActivator(data, killSwitch, status = true):
+     - the first branch (CreateSurplus/DebtAuction) needs !status: nothing is started, neither in this block
+       after the close (data is the copy read before) nor in a later one, however high / low the net fees;
+     - IsAuctionActive: Surplus/DebtAuctionClose(app, statusEsm = true): EVERY auction of the app is due,
+       whatever the time, and goes to closeSurplus/DebtAuction(statusEsm = true), bids or no bids (no restart):
+       V1S, Bidder != nil : Bid back to the bidder; SellToken module -> collector; net fees += SellToken
+       V1S, no bidder     : (the else branch) SellToken module -> collector; net fees += SellToken
+       V1D, BiddingIds != nil : the user bidding of (Bidder, ActiveBiddingId) is looked up (an error if it is
+                            not there) and ExpectedUserToken goes back to its bidder; nothing is minted
+       V1D, no bids       : nothing moves
+       then makeFalseForFlags, the record is deleted and written to the history with AuctionEnded.
+       The user-bidding records are NOT touched (the ordinary close marks, deletes and archives them):
+       they stay in the active store, placed / active, for an auction that is gone - see [active_biddings].
+   generation 2: auctionsV2 AuctionIterator reads the ESM status for Dutch auctions only: an English
+       auction is closed / restarted exactly as without it. *)
+Definition tick_esm (a : auction) (l : ledger) (now : Z) (tm_ok : bool) : outcome state :=
+  if ended a then Ok (a, l) else
+  match var a with
+  | V1S =>
+      match bidder a with
+      | Some w =>
+          lift (send l MOD w (bid_denom a) (buy a)) 16 (fun l1 =>
+          lift (send l1 MOD COLL (lot_denom a) (sell a)) 17 (fun l2 =>
+          Ok (set_esm_closed a, mint_to l2 NF (lot_denom a) (sell a))))
+      | None =>
+          lift (send l MOD COLL (lot_denom a) (sell a)) 17 (fun l1 =>
+          Ok (set_esm_closed a, mint_to l1 NF (lot_denom a) (sell a)))
+      end
+  | V1D =>
+      match bids a with
+      | [] => Ok (set_esm_closed a, l)
+      | _ :: _ =>
+          match bidder a with
+          | None => Err 18                                      (* GetDebtUserBidding("", ...) not found *)
+          | Some w => lift (send l MOD w (bid_denom a) (buy a)) 16 (fun l1 => Ok (set_esm_closed a, l1))
+          end
+      end
+  | V2S | V2X | V2D => tick a l now tm_ok
+  end.
+
 Inductive op :=
 | Bid (who denom amt now xd xa : Z)
-| Tick (now : Z) (tm_ok : bool).
+| Tick (now : Z) (tm_ok : bool)
+| TickEsm (now : Z) (tm_ok : bool).
 
 Definition step (s : state) (o : op) : outcome state :=
   match o with
   | Bid who denom amt now xd xa => bid (fst s) (snd s) who denom amt now xd xa
   | Tick now tm_ok => tick (fst s) (snd s) now tm_ok
+  | TickEsm now tm_ok => tick_esm (fst s) (snd s) now tm_ok
   end.
 
 (* messages and wrapped hooks are all-or-nothing: an error or panic leaves the state as it was *)
@@ -223,7 +283,16 @@ Definition init (v : variant) (bd ld lot start_buy now fac d bd_s : Z) : auction
 (* ------------------------------------------------------------------------------------------ *)
 (* What the auction holds for its bidders: the standing payment.                               *)
 Definition held (a : auction) : Z :=
-  if status a =? 2 then 0 else match bidder a with Some _ => buy a | None => 0 end.
+  if ended a then 0 else match bidder a with Some _ => buy a | None => 0 end.
+
+(* generation 1: the user-bidding records of this auction still in the active store: the ordinary
+   close archives all of them, the emergency-shutdown close none *)
+Definition active_biddings (a : auction) : Z :=
+  if status a =? 2 then 0 else Z.of_nat (List.length (bids a)).
+
+(* what the emergency-shutdown close returns to the collector (and books as net fees), per denom *)
+Definition lot_back (a : auction) (d : Z) : Z :=
+  match var a with V1S => if d =? lot_denom a then sell a else 0 | _ => 0 end.
 
 (* ---- the property predicates, evaluated by the runner on the IMPLEMENTATION's observations ---- *)
 
@@ -263,6 +332,19 @@ Definition holds_C11_winner (a : auction) (acct : Z) (bid0 lot0 bid1 lot1 : Z) :
        else (bid1 =? bid0) && (lot1 =? lot0))
   | _, _ => false
   end.
+
+(* after the emergency-shutdown close (status 3): NO bidder has the lot, NO bidder has lost anything:
+   every bidder account - the standing bidder included - is exactly where it was when the auction
+   started, in the bid denom and in the lot denom *)
+Definition holds_C11_esm (a : auction) (acct : Z) (bid0 lot0 bid1 lot1 : Z) : bool :=
+  (status a =? 3) && (bid1 =? bid0) && (lot1 =? lot0).
+
+(* ... and the lot (generation-1 surplus; a debt auction has none before it is minted) went from the
+   auction module back to the collector and onto the net-fee record; balances in the lot denom
+   relative to the start of the auction *)
+Definition holds_C11_esm_lot (a : auction) (mod0 coll0 nf0 mod1 coll1 nf1 : Z) : bool :=
+  let x := lot_back a (lot_denom a) in
+  (status a =? 3) && (mod1 =? mod0 - x) && (coll1 =? coll0 + x) && (nf1 =? nf0 + x).
 
 (* while the auction is open nobody but the standing bidder is out of pocket *)
 Definition holds_C11_open (a : auction) (acct : Z) (bid0 lot0 bid1 lot1 : Z) : bool :=
